@@ -1,10 +1,15 @@
 #!/bin/bash
-# tools/seedbatch.sh <suffix> [tier]: run seedtest on every delivered, not yet tested seed /tmp/seeds/C??<suffix>
+# tools/seedbatch.sh <suffix> [tier]: run seedtest (4 in parallel) on every delivered, not yet tested seed /tmp/seeds/C??<suffix>
 cd "$(dirname "$0")/.."
 SUF=$1; TIER=${2:-quick}
+mkdir -p /tmp/sv
+LIST=""
 for d in /tmp/seeds/C??$SUF; do
   n=$(basename $d); P=${n:0:3}
   [ -f $d/meta.json ] && [ -f $d/patch.diff ] && [ -f $d/demo_test.go ] || continue
   [ -f /tmp/sv/$n.$P.$TIER.log ] && continue
-  echo "=== $n"; tools/seedtest.sh $d $TIER 2>&1 | grep -v conda | grep -v "^builds\|hooks: yes"
+  LIST="$LIST $n"
 done
+[ -z "$LIST" ] && exit 0
+echo $LIST | tr ' ' '\n' | xargs -P 4 -I{} sh -c "tools/seedtest.sh /tmp/seeds/{} $TIER > /tmp/sv/{}.batch.out 2>&1"
+for n in $LIST; do echo "=== $n"; grep -v conda /tmp/sv/$n.batch.out | grep -v "^builds\|hooks: yes"; done
